@@ -126,4 +126,34 @@ PROPS = {
         "quick": {"runs": [q(deadline=45)], "floor": {"cases": 800, "distinct_nontrivial": 300, "dfs_nodes": 50000, "vloop_token_checks": 50000}},
         "thorough": {"runs": [q(deadline=1500, watchdog=3600)], "floor": {"cases": 15000, "distinct_nontrivial": 5000}},
     },
+    "C09": {
+        "eval_counter": "count_probes",
+        "case_counter": "grammars",
+        "rule": "EXHAUSTIVE enumeration of all 0<=m<=n<=N (N=18 quick / 44 thorough for Lark, 13 / 34 for JSON; crosses n=12 and every "
+                "multiple of 4) plus {m,} * + ?, for each of: rule-level x{m,n} (with and without delimiters), terminal-level, regex-level "
+                "(inline /../ and from_regex) over the elements \"a\", \"ab\", (\"a\"|\"b\"), /[a-c]/; JSON min/maxItems (items and "
+                "prefixItems+items), min/maxLength (1..4-byte characters, escapes, \\uXXXX incl. surrogate pairs with the option, with "
+                "pattern), min/maxProperties over additionalProperties. For every count c in 0..n+3 on the single-byte vocabulary: the "
+                "closer (or is_accepting) is allowed iff m<=c<=n, the next element iff c<n, and every byte of an allowed element is then "
+                "accepted. evaluations = (grammar, count) probes. Non-trivial = grammar with n>=1; distinct by (form, m, n).",
+        "assumptions": ["single-byte vocabulary: the mask is the next-byte set"],
+        "quick": {"runs": [q(deadline=60)], "floor": {"grammars": 3000, "distinct_nontrivial": 2500, "count_probes": 40000}},
+        "thorough": {"runs": [q(deadline=1500, watchdog=3600)], "floor": {"grammars": 20000, "distinct_nontrivial": 15000}},
+    },
+    "C08": {
+        "eval_counter": "literal_probes",
+        "case_counter": "schemas",
+        "rule": "EXHAUSTIVE grid: all integer bound pairs (a,b) in [-W,W]^2 with b>=a-2 (W=22 quick; W=150 thorough, thinned away from the "
+                "diagonal) x {inclusive,exclusive}^2 x {integer,number} x multipleOf in {none, 1,2,3,5,7,10, 0.5,0.25,0.1,0.01,2.5} (rotating "
+                "subset per pair); one-sided bounds; all ordered pairs of 18 decimal bounds with <=3 fraction digits x multipleOf "
+                "{none,0.1,0.25,0.01,1}; magnitudes 10^k+-1 for k<=18. For each schema: compile error <=> exact emptiness, and for every "
+                "plain decimal literal in and around the interval (all integers within +-12 of each bound, decimals at +-10^-1..-4 and "
+                "+-5*10^-1..-4 of each bound, trailing-zero forms, exact multiples near the bounds) single-byte acceptance <=> the exact "
+                "predicate evaluated on the decimal texts; malformed JSON numbers (leading zeros, bare '.', '+') must be rejected. "
+                "`5.0` under an integer schema is logged as unspecified and excluded. evaluations = literal probes. Non-trivial = schema with "
+                "a bound and at least one literal inside; distinct by schema text.",
+        "assumptions": ["exact decimal arithmetic of the harness (ref_json::Dec, i128) is the oracle; bounds and literals are compared as texts, never as floats"],
+        "quick": {"runs": [q(deadline=60)], "floor": {"schemas": 20000, "distinct_nontrivial": 8000, "literal_probes": 500000}},
+        "thorough": {"runs": [q(deadline=2400, watchdog=5400)], "floor": {"schemas": 300000, "distinct_nontrivial": 100000}},
+    },
 }
